@@ -21,6 +21,7 @@ RULE = ("one run = a tape-generated class hierarchy (program, 0-2 base classes -
         "must be disjoint and inside the map; a two-party history, no timing dimension; "
         "distinct = distinct (declarations, history) digests; non-trivial = at least 3 "
         "variables and one program run")
+RULE += '; since the 4th session also per-CPU variables in sub-program classes, a second instance of the program class with another list of sub-programs, sub-program/program classes with __eq__/__hash__/__len__, refused out-of-range writes, and an unusable possible-CPU file with a pinned process (all CPUs online)'
 COMPONENTS = {
     "real": ["ebpfcat.arraymap.ArrayMap.collect/init/create_map, ArrayGlobalVarDesc (both "
              "branches), PerCPUArrayMap, PerCPUVar, PerCPUReader", "code generator",
